@@ -191,6 +191,10 @@ theorem pyIntE_safe [AllowsV P] (s : Str) : Safe P (pyIntE s) := by
   unfold pyIntE; safe
 macro_rules | `(tactic| safe_leaf) => `(tactic| exact pyIntE_safe _)
 
+theorem parseNumL_safe [Allows P] (C : DecCodec) (d : Str) : Safe P (parseNumL C d) := by
+  unfold parseNumL; safe
+macro_rules | `(tactic| safe_leaf) => `(tactic| exact parseNumL_safe _ _)
+
 theorem arraySize_safe [Allows P] (as : List (Str × Str)) : Safe P (arraySize as) := by
   unfold arraySize; safe
 macro_rules | `(tactic| safe_leaf) => `(tactic| exact arraySize_safe _)
